@@ -47,7 +47,7 @@ RULE = ('three families.  features (~60 %): random lenses of 2-8 interfaces from
         '(ideal n, ideal n+k, catalogue glass with and without reference, Abbe model glass, mirror), coating (none, '
         'SimpleCoating, Fresnel), scatter model (Lambertian / Gaussian BSDF, constructed, not traced through), radial '
         'aperture (with / without obscuration), 1-3 fields with vignetting factors, 1-3 wavelengths (um and nm), '
-        'polarization ignore / polarized / unpolarized PolarizationState, object-space telecentric, radius / conic / '
+        'non-default max_iter on iterated surfaces, polarization ignore / polarized / unpolarized PolarizationState, object-space telecentric, radius / conic / '
         'thickness pickups (up to date and stale), marginal-ray-height solves and an image surface of class ImageSurface '
         'occur, in random combination.  history (~40 %): a C01 edit history (5-60 of set_radius / set_conic / set_thickness / '
         'set_index / set_asphere_coeff / Variable.update of all nine kinds / pickups.add / solves.add / update / image_solve / '
@@ -55,7 +55,7 @@ RULE = ('three families.  features (~60 %): random lenses of 2-8 interfaces from
         'scale_system(s) and a 3-iteration OptimizerGeneric run (radius variable, f2 operand).  sample: the 24 bundled '
         'designs.  30 random (Hy, Px, Py) rays per wavelength + one hexapolar Optic.trace() fan per lens.  non-trivial = '
         '>= 3 interfaces and >= 2 feature classes beyond plain spheres in ideal media; distinct = distinct case hash')
-TIERS = {'quick': dict(shards=12, cases=16, budget_s=40), 'thorough': dict(shards=16, cases=700, budget_s=420)}
+TIERS = {'quick': dict(shards=12, cases=16, budget_s=40), 'thorough': dict(shards=16, cases=600, budget_s=420)}
 MIN_NONTRIVIAL = {'quick': 120, 'thorough': 2500}
 MIN_EVALS = {
     'to_dict-does-not-raise': {'quick': 150, 'thorough': 3000},
